@@ -730,7 +730,7 @@ fn run_small(acc: &mut Acc) {
     // length 0..=2 over {a, =, 2-byte character, blank}: the name ends at the FIRST '=' (byte, not character, offsets)
     {
         let names: Vec<String> = strings_over(&["a", " ", "\u{e9}", "\u{4fa1}", "\u{1d11e}", "."], 3).into_iter().filter(|n| !n.is_empty()).collect();
-        let values = strings_over(&["a", "=", "\u{e9}", " "], 2);
+        let values = strings_over(&["a", "=", "\u{e9}", " ", "\r"], 2); // (round 8: a trailing CR is part of the value)
         for name in &names {
             let mut list_fields: Fields = Vec::new();
             let mut find_fields: Fields = Vec::new();
